@@ -865,6 +865,123 @@ def stage_ambient_sites(rep):
     return new, gone
 
 
+# ----------------------------------------------------------------------------- system level: configure, then regenerate/env
+TC_LINES = ["environ['CFLAGS'] = '-O1 -DTC=1'", "environ['C09_ADDED'] = 'a b'", "del environ['C09_DROP']",
+            "environ.setdefault('C09_DFLT', 'd')", "environ.pop('C09_POP', None)", "environ.update({'C09_UPD': 'u'})",
+            "compile_options(['-DOPT=1'], 'c')", "environ['CPPFLAGS'] = '-DFROM_TC'", "environ['C09_ADDED'] = 'again'"]
+OUTPUTS = ('Makefile', 'compile_commands.json', '.bfg_environ')
+
+
+def run_bfg(args, env, cwd):
+    return subprocess.run(['bfg9000'] + args, env=env, cwd=cwd, capture_output=True, text=True, timeout=120)
+
+
+def read_outputs(build):
+    out = {}
+    for fn in OUTPUTS:
+        p = os.path.join(build, fn)
+        out[fn] = open(p, 'rb').read() if os.path.exists(p) else None
+    return out
+
+
+def system_case(rng, top, which_probe):
+    """One project: configure under E0, regenerate/env under perturbed ambient state. Returns list of (classes, message)."""
+    src, build, fake = os.path.join(top, 'src dir'), os.path.join(top, 'build'), os.path.join(top, 'fakebin')
+    for d in (src, fake, os.path.join(top, 'elsewhere')):
+        os.makedirs(d)
+    with open(os.path.join(src, 'build.bfg'), 'w') as f:
+        f.write("project('p')\nexecutable('prog', files=['main.c'])\n")
+    with open(os.path.join(src, 'options.bfg'), 'w') as f:
+        f.write("argument('level', default='0')\n")
+    with open(os.path.join(src, 'main.c'), 'w') as f:
+        f.write('int main(void) { return 0; }\n')
+    lines = TC_LINES[:]
+    rng.shuffle(lines)
+    lines = lines[:rng.randint(2, len(lines))]
+    if which_probe:
+        lines.append("compiler(['c09-cc', 'gcc'], 'c')")
+    tc = os.path.join(top, 'tc.bfg')
+    with open(tc, 'w') as f:
+        f.write('\n'.join(lines) + '\n')
+    with open(os.path.join(fake, 'c09-cc'), 'w') as f:
+        f.write('#!/bin/sh\nexec gcc "$@"\n')
+    os.chmod(os.path.join(fake, 'c09-cc'), 0o755)
+
+    e0 = common.impl_env()
+    base_path = e0['PATH']
+    e0.update({'PATH': fake + ':' + base_path, 'CFLAGS': '-g', 'C09_DROP': 'x', 'C09_POP': 'y', 'HOME': top})
+    if not which_probe:
+        e0['CC'] = rng.choice(['gcc', 'cc'])
+    args = ['configure-into', src, build, '--backend=make', '--no-resolve-packages', '--toolchain', tc,
+            '--level=%d' % rng.randint(1, 9)]
+    if rng.random() < 0.5:
+        args.append('--enable-static')
+    p = run_bfg(args, e0, top)
+    if p.returncode != 0:
+        return [((), 'configure failed: ' + (p.stderr or p.stdout)[-500:])], 0
+    ref = read_outputs(build)
+    refenv = run_bfg(['env', build], e0, top).stdout
+    problems = []
+    n = 0
+    perturbations = [
+        ('unset-CC-other-CFLAGS', {'CC': None, 'CFLAGS': '-O3 -DAMBIENT', 'CPPFLAGS': '-DAMBIENT'}, top, build),
+        ('extra-and-missing-vars', {'C09_DROP': None, 'C09_POP': 'other', 'C09_ADDED': 'ambient', 'C09_NEW': '1'}, top, build),
+        ('other-HOME-LANG', {'HOME': '/nonexistent', 'LANG': 'C', 'LC_ALL': 'C'}, top, build),
+        ('cwd-builddir-relative', {}, build, '.'),
+        ('cwd-elsewhere-relative', {'CC': 'clang'}, os.path.join(top, 'elsewhere'), '../build'),
+        ('path-reordered', {'PATH': base_path + ':' + fake, 'CC': 'clang'}, top, build),
+    ]
+    if which_probe:
+        perturbations.append(('path-without-configured-tool', {'PATH': base_path}, top, build))
+    for name, delta, cwd, barg in perturbations:
+        e = dict(e0)
+        for k, v in delta.items():
+            if v is None:
+                e.pop(k, None)
+            else:
+                e[k] = v
+        n += 1
+        p = run_bfg(['regenerate', barg], e, cwd)
+        cls = ('toolchain-which-ambient-path',) if name == 'path-without-configured-tool' else ()
+        if p.returncode != 0:
+            problems.append((cls, 'regenerate under %s failed: %s' % (name, (p.stderr or p.stdout)[-400:])))
+            continue
+        got = read_outputs(build)
+        for fn in OUTPUTS:
+            if got[fn] != ref[fn]:
+                a, b = (ref[fn] or b'').decode(errors='replace').split('\n'), (got[fn] or b'').decode(errors='replace').split('\n')
+                d = [(x, y) for x, y in zip(a, b) if x != y][:2]
+                problems.append((cls, '%s differs after regenerate under %s (toolchain %r): %r' % (fn, name, lines, d)))
+        genv = run_bfg(['env', barg], e, cwd).stdout
+        if genv != refenv:
+            problems.append((cls, '`bfg9000 env` differs under %s' % name))
+        if name == 'path-without-configured-tool':
+            break       # later comparisons would only repeat this difference
+    return problems, n
+
+
+def stage_system(rep, rng, n):
+    bad = 0
+    runs = 0
+    for i in range(n):
+        top = common.scratch('c09sys')
+        try:
+            probe = (i % 3 == 2)
+            problems, k = system_case(rng, top, probe)
+            runs += k
+            rep.case('sys:%d:%d' % (rep.seed, i), True)
+            rep.count('system.project' + (':which-probe' if probe else ''))
+            for cls, msg in problems:
+                msg = msg.replace(top, '<top>')
+                if rep.fail('system: ' + msg, {'kind': 'system', 'which_probe': probe, 'message': msg}, classes=cls):
+                    bad += 1
+        finally:
+            shutil.rmtree(top, ignore_errors=True)
+    rep.traces += runs
+    rep.stage('system:regenerate-under-perturbed-ambient', projects=n, regenerations=runs, failures=bad)
+    return bad
+
+
 # ----------------------------------------------------------------------------- run
 def run(rep):
     rng = random.Random(rep.seed)
@@ -873,15 +990,21 @@ def run(rep):
     n = 3000 if thorough else 500
     dis, cases = stage_w_store(rep, rng, n)
     new, gone = stage_ambient_sites(rep)
-    pdis, pbad = stage_w_path(rep, rng, 2000 if thorough else 400)
-    edis, ebad = stage_w_env(rep, rng, 600 if thorough else 80)
+    npath, nenv = (2000, 600) if thorough else (400, 80)
+    pdis, pbad = stage_w_path(rep, rng, npath)
+    if pdis and not pbad:          # the tie broke: search the implementation with a 10x budget
+        pbad = stage_w_path(rep, rng, 10 * npath)[1]
+    edis, ebad = stage_w_env(rep, rng, nenv)
+    if edis and not ebad:
+        ebad = stage_w_env(rep, rng, 10 * nenv)[1]
+    sbad = stage_system(rep, rng, (12 if thorough else 3) * (4 if (new or gone or edis or dis) else 1))
     if pdis and not pbad:
         i, call, iv, mv = pdis[0]
         rep.fail('W:pathjson - model and Path.from_json/to_json disagree (%d cases), e.g. %s on %r: impl %r, model %r' % (
             len(pdis), call[0], d_json(common.parse_sx(common.enc(call[1]))), iv, mv),
             {'obligation': 'W:pathjson', 'call': call[0], 'json': d_json(common.parse_sx(common.enc(call[1]))),
              'impl': iv, 'model': mv, 'n_disagreements': len(pdis)}, found_input=False)
-    if edis and not ebad:
+    if edis and not ebad and not sbad:
         i, call, iv, mv, doc = edis[0]
         rep.fail('W:envjson - model and Environment.load/save disagree (%d cases), e.g. %s: impl %r, model %r' % (
             len(edis), call[0], iv, mv),
@@ -894,7 +1017,7 @@ def run(rep):
             len(dis), cases[i], iv, mv),
             {'obligation': 'W:envstore', 'case': cases[i], 'impl': iv, 'model': mv, 'n_disagreements': len(dis)},
             found_input=False)
-    if new or gone:
+    if (new or gone) and not sbad:
         rep.fail('W:ambient_sites - the reads of ambient state in bfg9000 differ from the recorded list: new %r, gone %r' % (
             new, gone), {'obligation': 'W:ambient_sites', 'new': new, 'gone': gone}, found_input=False)
 
@@ -908,5 +1031,26 @@ def replay(rep, path):
         msg = check_store_property(case, r.get('every_step', True))
         if msg:
             rep.fail('EnvVarDict: ' + msg, {'kind': 'store', 'case': case, 'every_step': r.get('every_step', True)})
+        return
+    if r.get('kind') == 'path':
+        from bfg9000.path import Path
+        p = Path.from_json(r['json'])
+        q = Path.from_json(json.loads(json.dumps(p.to_json())))
+        if c_path(p) != c_path(q):
+            rep.fail('Path %r is reloaded from its JSON form %r as %r' % (c_path(p), p.to_json(), c_path(q)),
+                     {'kind': 'path', 'json': r['json']})
+        return
+    if r.get('kind') == 'env':
+        tmp = common.scratch('c09env')
+        try:
+            res, env, exc = impl_load(r['document'], tmp)
+            msg = check_env_roundtrip(env, tmp) if env is not None else 'saved document no longer loads: %s' % exc
+            if msg:
+                rep.fail('Environment: ' + msg, {'kind': 'env', 'document': r['document']})
+        finally:
+            shutil.rmtree(tmp, ignore_errors=True)
+        return
+    if r.get('kind') == 'system':
+        stage_system(rep, random.Random(r.get('seed', 0)), 6)
         return
     run(rep)
